@@ -27,7 +27,7 @@ def main():
     pid, wt = sys.argv[1].upper(), sys.argv[2].rstrip('/')
     name = sys.argv[3] if len(sys.argv) > 3 else 'seed1'
     extra_checks = [c.upper() for c in sys.argv[4:]]
-    demo = [f for f in os.listdir(wt) if f.startswith('demo_')]
+    demo = sorted(f for f in os.listdir(wt) if f.startswith('demo_') and os.path.isfile(os.path.join(wt, f)))
     if not demo or not os.path.exists(os.path.join(wt, 'patch.diff')):
         print('missing demo or patch.diff in', wt)
         return 2
@@ -83,6 +83,9 @@ def main():
     os.makedirs(dst, exist_ok=True)
     shutil.copy(os.path.join(wt, 'patch.diff'), dst)
     shutil.copy(os.path.join(wt, demo), dst)
+    for extra in os.listdir(wt):
+        if extra.startswith('demo_') and os.path.isdir(os.path.join(wt, extra)):
+            shutil.copytree(os.path.join(wt, extra), os.path.join(dst, extra), dirs_exist_ok=True)
     meta = {}
     if os.path.exists(os.path.join(wt, 'meta.json')):
         try:
